@@ -106,8 +106,22 @@ def handle (op : String) (c i : Json) : Except String (Json × String) := do
                   | some _ => "fail: lookup returned a frame that is not in the matrix or does not carry the key"
                   | none => "fail: lookup returned nothing although a frame of the matrix carries the key"))
     let indep ← independent triples
+    -- deletions: the snapshot after the call is the one before it without the frame that was named
+    let posts := match i.getObjVal? "post" with
+      | .ok (.arr a) => a.toList
+      | _ => []
+    let delBad ← (List.zip triples posts).filterMapM fun ((o, _, pre), post) => do
+      if J.isNull pre || J.isNull post then pure none else
+      let b ← snapOf pre
+      let a ← snapOf post
+      match o with
+      | .delFrame _ h | .removeFrame _ h =>
+        pure (if Spec.removedHandle b a h then none else some "fail: deleting a frame object removed another frame (or not exactly that one) from the matrix")
+      | .delFrameByName _ n =>
+        pure (if Spec.removedName b a n then none else some "fail: deleting a frame by name removed another frame (or not exactly the first of that name)")
+      | _ => pure none
     pure (m, match bad with
-      | [] => if indep then "ok" else
+      | [] => if let d :: _ := delBad then d else if indep then "ok" else
           "fail: a frame of a matrix changed its identifier or name although no edit addressed that frame: the matrix shares state with another matrix"
       | b :: _ => b)
   | _ => throw s!"C10: unknown op {op}"
